@@ -18,6 +18,10 @@ plan of HTTP outcomes and every behaviour of the decompression library (`World`)
   archive format does not restore mtimes (two open findings, each shown necessary by a witness, `*_needed*`; the
   statement without them, `FullStatement`, is refuted), and the no-checksum assumptions (no foreign `.offset` with a
   newer mtime, no other bytes of exactly the published size).
+* `completed_run_keeps_line_count_memo`, `retry_after_any_run_checks_line_count`: the offset table as memo of the line-
+  count check is kept sound by every *completed* run (returned or raised), so a failed verification is not forgotten by
+  a retry; `line_count_memo_broken_in_crash_window`: it is not sound between `os.replace` and the comparison (open).
+* `decompress_ok_means_tool_or_library_succeeded`: a failed external tool never counts as a successful decompression.
 * `crash_states_keep_offset_table_sound`: the offset-table assumption is *preserved* by the code: no state the
   preparation passes through — hence no crash — leaves a table that is valid by mtime but not the document's complete
   table (the table is built under `.offset.tmp` and published atomically).
@@ -179,6 +183,77 @@ theorem crash_states_keep_offset_table_sound (w : World) (spec : Spec) (fs : FS)
     (hm : ∀ c s, (w.dc c s).mtime = none) (hinv : OffInv fs) :
     (∀ x ∈ (prepareLoop w spec fuel fs plan).trace, OffInv x) ∧ OffInv (prepareLoop w spec fuel fs plan).fs :=
   loop_offInv w spec hm fuel fs plan hinv
+
+/-! ## 4. state carried from one run to the next: the offset table as memo of the line-count check -/
+
+/-- **completed_run_keeps_line_count_memo**: `LinesMemo` = "a table that is valid by mtime belongs to a document whose
+    line count is the declared one".  For every specification (sizes declared or not), outcome plan and decompression
+    behaviour that does not restore mtimes: a *completed* run — returned **or raised** — leaves the memo sound (a table
+    built for a document that fails the comparison is removed again), and a normal return means that the document on
+    disk has the declared number of lines (compared now, or vouched for by the memo). -/
+theorem completed_run_keeps_line_count_memo (w : World) (spec : Spec) (fs : FS) (plan : List Attempt) (fuel : Nat)
+    (hm : ∀ c s, (w.dc c s).mtime = none) (hinv : OffInv fs) (hmemo : LinesMemo w spec fs) :
+    LinesMemo w spec (prepareLoop w spec fuel fs plan).fs ∧
+    ((prepareLoop w spec fuel fs plan).res = .done () →
+      ∃ d, (prepareLoop w spec fuel fs plan).fs.doc = some d ∧ w.lines d.cid d.size = spec.nlines) :=
+  loop_linesMemo w spec hm fuel fs plan hinv hmemo
+
+/-- **retry_after_any_run_checks_line_count**: run, then run again on whatever the first run left — after a return or after
+    any error, with any two outcome plans: if the retry returns normally, the document has the declared line count.
+    A failed verification is never forgotten by a retry. -/
+theorem retry_after_any_run_checks_line_count (w : World) (spec : Spec) (fs : FS) (plan1 plan2 : List Attempt) (f1 f2 : Nat)
+    (hm : ∀ c s, (w.dc c s).mtime = none) (hinv : OffInv fs) (hmemo : LinesMemo w spec fs)
+    (hok : (prepareLoop w spec f2 (prepareLoop w spec f1 fs plan1).fs plan2).res = .done ()) :
+    ∃ d, (prepareLoop w spec f2 (prepareLoop w spec f1 fs plan1).fs plan2).fs.doc = some d ∧
+      w.lines d.cid d.size = spec.nlines :=
+  (loop_linesMemo w spec hm f2 _ plan2 (loop_offInv w spec hm f1 fs plan1 hinv).2
+    (loop_linesMemo w spec hm f1 fs plan1 hinv hmemo).1).2 hok
+
+/-- … but the memo is **not** sound in every *intermediate* state of the current code: the table is published
+    (`os.replace`) before the line count is compared.  Witness: half a document, nothing declared.  The run itself
+    raises `linesMismatch` and removes the table; a kill between the two steps leaves `fsHalfDocPublished`, which
+    satisfies `OffInv`, and the retry on it returns normally with 6 lines where 10 are declared. -/
+theorem line_count_memo_broken_in_crash_window :
+    (prepare wLines specUndeclared fsHalfDoc []).res = .raised .linesMismatch ∧
+    fsHalfDocPublished ∈ (prepare wLines specUndeclared fsHalfDoc []).trace ∧
+    OffInv fsHalfDocPublished ∧ ¬ LinesMemo wLines specUndeclared fsHalfDocPublished ∧
+    (prepare wLines specUndeclared fsHalfDocPublished []).res = .done () ∧
+    (prepare wLines specUndeclared fsHalfDocPublished []).fs.doc = some ⟨50, .pub, 1⟩ ∧
+    wLines.lines .pub 50 ≠ specUndeclared.nlines := by
+  refine ⟨by decide, by decide, ⟨?_, ?_, ?_⟩, ?_, by decide, by decide, by decide⟩
+  · intro d h; cases h; decide
+  · intro o h; cases h; decide
+  · intro o d h1 h2 _; cases h1; cases h2; rfl
+  · intro h
+    exact absurd (h ⟨.complete 50 .pub, 3⟩ ⟨50, .pub, 1⟩ rfl rfl (by decide)) (by decide)
+
+/-! ## 5. format dispatch and fallback to the library -/
+
+/-- **decompress_ok_means_tool_or_library_succeeded**: `io.decompress` returns normally only if the archive could be
+    opened and either the external tool exited with status 0 or the library path (with its checksum verification) ran
+    to the end without raising — a failed tool never counts as success. -/
+theorem decompress_ok_means_tool_or_library_succeeded (o : DcOutcome) (fs : FS) (h : (ioDecompress o fs).1 = none) :
+    o.openFails = false ∧ ((∃ n, o.ext = some (n, true)) ∨ o.fails = false) := by
+  by_cases hopen : o.openFails
+  · simp [ioDecompress, hopen] at h
+  refine ⟨by simpa using hopen, ?_⟩
+  cases hext : o.ext with
+  | none =>
+    right
+    simp only [ioDecompress, hopen, hext, dcError] at h
+    by_cases hf : o.fails
+    · simp [hf] at h
+    · simpa using hf
+  | some p =>
+    obtain ⟨n, b⟩ := p
+    cases b with
+    | true => exact Or.inl ⟨n, rfl⟩
+    | false =>
+      right
+      simp only [ioDecompress, hopen, hext, dcError] at h
+      by_cases hf : o.fails
+      · simp [hf] at h
+      · simpa using hf
 
 /-- the zero-lines quirk is gone: an empty document where 10 lines are expected is an explicit error, and neither the
     table nor its temporary file stays behind -/
